@@ -47,7 +47,12 @@ var genericStd = map[string]interface{}{
 	// paths
 	"path.Base": path.Base, "path.Dir": path.Dir, "path.Ext": path.Ext, "path.IsAbs": path.IsAbs, "path.Match": path.Match, "path.Split": path.Split,
 	"path/filepath.Dir": filepath.Dir, "path/filepath.Ext": filepath.Ext, "path/filepath.IsAbs": filepath.IsAbs, "path/filepath.Split": filepath.Split,
-	"path/filepath.FromSlash": filepath.FromSlash, "path/filepath.Rel": filepath.Rel, "path/filepath.SplitList": filepath.SplitList, "path/filepath.VolumeName": filepath.VolumeName,
+	// since Go 1.23 the lexical functions of path/filepath are wrappers around internal/filepathlite
+	"internal/filepathlite.Ext": filepath.Ext, "internal/filepathlite.Base": filepath.Base, "internal/filepathlite.Dir": filepath.Dir,
+	"internal/filepathlite.Clean": filepath.Clean, "internal/filepathlite.IsAbs": filepath.IsAbs, "internal/filepathlite.Split": filepath.Split,
+	"internal/filepathlite.FromSlash": filepath.FromSlash, "internal/filepathlite.ToSlash": filepath.ToSlash, "internal/filepathlite.VolumeName": filepath.VolumeName,
+	"internal/filepathlite.IsLocal": filepath.IsLocal,
+	"path/filepath.FromSlash":       filepath.FromSlash, "path/filepath.Rel": filepath.Rel, "path/filepath.SplitList": filepath.SplitList, "path/filepath.VolumeName": filepath.VolumeName,
 }
 
 // symbolic bytes the fallback may enumerate per argument (256 values each): beyond that the call is unsupported
